@@ -15,7 +15,7 @@ func init() {
 	property("C07",
 		"Static conformance of the structural part of format(): (a) conservation — in the main loop of FormatText every non-break word is written to the current line exactly once on every path, every reset of the current line is preceded by flushing it to the output, a break word flushes the line, writes one break code and one newline, the final line is flushed after the loop, and nothing but the word, a single space, the line content, the break codes and the newline byte is ever written; (b) break discipline shape — the automatic break (\\N) and the wrap choose between \\n and \\l by the same predicate over (current line number, numLines), the line number is incremented on every line end and reset by a paragraph break; (c) parameter binding — each named format() parameter reaches the FormatText parameter of the same meaning, font-config fallbacks read the field of the same name under the font id that is passed to FormatText. NOT decided (runtime arithmetic): that every line fits maxLineLength, that a word moves only when it does not fit, cursor-overlap accounting, and getNextWord's tokenisation.",
 		[]string{"pixel-width arithmetic and getNextWord tokenisation are not decided (DESIGN §6)", "go/ssa lowering is faithful to the source"},
-		"C07.a", "C07.b", "C07.c", "C07.d", "C07.e")
+		"C07.a", "C07.b", "C07.c", "C07.d", "C07.e", "C06.b", "C09.b")
 
 	register(&Rule{ID: "C07.d", Doc: "formatting is a function of (text, font table, parameters): the formatter writes no state; depth counters of the word scanner cannot go negative", Floor: 3, Run: c07d})
 	register(&Rule{ID: "C07.e", Doc: "a width is what the font table says for the glyph when it lists it (also when that is 0), else the font's default, else the fallback: presence decided by the comma-ok bit; cursor room reserved exactly on lines that show the prompt", Floor: 3, Run: c07e})
@@ -297,6 +297,15 @@ func c07a(c *Ctx) {
 	for _, e := range wordPhi.Edges {
 		if strings.HasPrefix(c.term(fn, e), "(*parser.FontConfig).getNextWord($0,") && strings.HasSuffix(c.term(fn, e), ":])#1") {
 			okNext = true
+		}
+	}
+	// every scan for a word reads the text in which line breaks between adjacent literals have
+	// become spaces (a raw line break would glue two words into one that is never measured)
+	if gnw := c.Fn("parser.FontConfig.getNextWord"); gnw != nil {
+		const norm = `strings.ReplaceAll($1,"\n"," ")`
+		for i, call := range callsToIn(fn, gnw) {
+			t := c.term(fn, call.Common().Args[1])
+			c.Check(strings.HasPrefix(t, norm), fmt.Sprintf("word/scanned-text-normalised#%d", i), c.W.Pos(call.Pos()), "words are scanned in the text with line breaks turned into spaces", "a word is scanned in "+pretty(t)+", not in the text whose line breaks were replaced by spaces: words on both sides of a raw line break would be glued together")
 		}
 	}
 	c.Check(okNext, "word/next-from-remaining-text", c.W.Pos(wordPhi.Pos()), "the next word is read from the text after the current position", "the next word is not read from text[pos:]")
